@@ -11,7 +11,7 @@ AST (tuples):
 import re
 
 TOKEN_RE = re.compile(r"""
-    (?P<ws>\s+|//[^\n]*|\(\*.*?\*\))
+    (?P<ws>\s+|//[^\n]*|\(\*(?!\)).*?\*\))
   | (?P<num>\d+'[sS]?[dDhHbB][0-9a-fA-F_xXzZ]+)
   | (?P<int>\d+)
   | (?P<str>"[^"]*")
